@@ -46,6 +46,11 @@ def run(ck):
     c03.run_setters(radio, agg, contract.SETTERS)
     from . import c08
     c08.events_kept(radio, agg)
+    # the sibling driver rf24_lite.RF24 implements the same send()/resend() contract: the same rules, same oracle (shared with C20)
+    lite = Radio(ck, "rf24_lite", "RF24")
+    run_for(ck, lite, agg, lite=True)
+    c10.run_for(ck, lite, agg, lite=True)
+    link.write_cmd(lite, agg, lite=True, rule="R02.11")
     agg.flush()
     ck.floor("R02.11", "write() scenarios", n11, 8)
     ck.floor("R02.4", "send() prologue scenarios", n[0], 256)
